@@ -2897,7 +2897,9 @@ impl<'a> Checker<'a>
             }
             self.apply_issued_ctx(issued, true)?;
             // ... and so is every other deferred buffer it has (`ParallelCommands`, a custom `Deferred<T>`), in parameter order
-            if !callee_dw
+            // (the `ParamSet` forms -- spawned slots 1 and 3 -- carry no extra buffers)
+            let ps_form = matches!(kind, SysKind::Spawned) && key % 2 == 1;
+            if !callee_dw && !ps_form
             {
                 for which in 0..2u8
                 {
